@@ -151,6 +151,13 @@ def gen_cfg(rnd, explainer, exact, allow_discontinuous=False):
         cfg["n_inner"] = min(cfg["n_inner"], 2)
         cfg["model"] = rnd.choice(["phase", "phase", cfg["model"]])      # a model that only becomes informative after ~40 observations
         cfg["extras"] = 0
+    cfg["str_values"] = rnd.random() < 0.2 and cfg["model"] not in ("linear", "phase")      # categorical features with string values
+    cfg["ykind"] = rnd.choice(["str", "bool"]) if rnd.random() < 0.2 and cfg["loss"] in ("hash", "zero", "zero-one") else "int"
+    r = rnd.random()
+    if r < 0.03:          # wide explainers (many features), short streams
+        cfg.update(d=rnd.choice([9, 12, 17, 33]), n_inner=1, steps=min(cfg["steps"], 8), extras=0)
+    elif r < 0.06:        # many inner samples (chunking / batching thresholds), few features
+        cfg.update(n_inner=rnd.choice([8, 17, 64, 65, 129]), d=min(cfg["d"], 2), steps=min(cfg["steps"], 8))
     if cfg["model"] == "positional":
         cfg["shuffle_keys"] = False
     if cfg["model"] == "antisym" and cfg["out_type"] in ("npbool", "pybool"):
@@ -159,6 +166,25 @@ def gen_cfg(rnd, explainer, exact, allow_discontinuous=False):
         cfg["out_type"] = "plain"       # (SAGE subtracts losses from each other: unsigned modular arithmetic is not a real-valued loss)
     if cfg["model"] in ("multi", "grow") and cfg["loss"] in ("sq", "abs") and not exact:
         pass
+    return cfg
+
+
+def make_phase(cfg, rnd, dyn):
+    """A model that is constant for the first ~40 observations and informative afterwards (an online learner before it is
+    fitted), on a stream long enough to fill the size-100 storages: all contributions are exactly 0 for dozens of calls."""
+    cfg.update(steps=rnd.choice([130, 260]), storage=rnd.choice([("uniform", 100, False), ("geometric", 100, None, False), ("interval", 100, True)]),
+               d=min(cfg["d"], 3), n_inner=min(cfg["n_inner"], 2), model="phase", extras=0, dyn=dyn, str_values=False)
+    if cfg["imputer"] == "library-default":
+        cfg["imputer"] = "joint"
+    return cfg
+
+
+def make_long(cfg, rnd, steps):
+    """Turn a configuration into a stream of thousands of calls on ONE explainer (thresholds in call counters)."""
+    cfg.update(steps=steps, d=min(cfg["d"], 2), n_inner=1, extras=0, vary_calls=False, manual_updates=False,
+               storage=rnd.choice([("uniform", 5, False), ("geometric", 5, None, False), ("interval", 3, True)]))
+    if cfg["imputer"] == "library-default":
+        cfg["imputer"] = "joint"
     return cfg
 
 
@@ -225,7 +251,8 @@ class Scenario:
             self.e = IncrementalPFI(self.model, loss_fn, self.names, **kw)
         self.extras = [f"extra{j}" for j in range(cfg.get("extras", 0))]
         self.stream = UniqueStream(self.names, seed=seed, exact=cfg["exact"], extras=self.extras,
-                                   shuffle_keys=cfg.get("shuffle_keys", False))
+                                   shuffle_keys=cfg.get("shuffle_keys", False), str_values=cfg.get("str_values", False),
+                                   ykind=cfg.get("ykind", "int"))
         self.t = 0
         self.max_loss = 1.0
         for _ in range(cfg.get("warm_start", 0)):
